@@ -469,8 +469,6 @@ class ConnectionPool(Entity):
 
     def _handle_warmup(self, event: Event) -> Generator[float, None, list[Event] | None]:
         """Create minimum connections."""
-        events = []
-
         while self._total_connections < self._min_connections:
             connection = yield from self._create_connection()
             self._idle_connections.append(connection)
@@ -487,7 +485,10 @@ class ConnectionPool(Entity):
                     },
                 },
             )
-            events.append(timeout_event)
+            # The check is stamped relative to now: hand it to the engine now,
+            # not when the whole warm-up is over (establishing the remaining
+            # connections may take longer than the idle timeout).
+            yield 0.0, [timeout_event]
 
         logger.debug(
             "[%s] Warmup complete: created %d connections",
@@ -495,7 +496,7 @@ class ConnectionPool(Entity):
             self._min_connections,
         )
 
-        return events if events else None
+        return None
 
     def _handle_idle_timeout(self, event: Event) -> list[Event] | None:
         """Handle idle timeout for a connection."""
